@@ -336,6 +336,16 @@ pub fn random_node(r: &mut Rng, inst: &Inst) -> VNode {
     if r.chance(1, 6) && nc > 0 {
         n.shrinked.push((r.below(nc), r.range(0, 3)));
     }
+    // the room stage can list a course twice (once in the k-selection and once among the constraints that always apply): nodes with a
+    // repeated cancelled / enforced entry are reachable
+    if r.chance(1, 4) && !n.cancelled.is_empty() {
+        let c = *r.pick(&n.cancelled);
+        n.cancelled.push(c);
+    }
+    if r.chance(1, 8) && !n.enforced.is_empty() {
+        let c = *r.pick(&n.enforced);
+        n.enforced.push(c);
+    }
     n
 }
 
@@ -401,10 +411,23 @@ pub fn run(
             if inst.parts.iter().enumerate().any(|(p, ch)| !ch.is_empty() && inst.courses.iter().any(|c| c.instr.contains(&p))) {
                 *hist.entry(String::from("class_TC(instructor with choices)")).or_insert(0) += 1;
             }
-            for (nd, o) in walk(&mut r, &inst, per_inst) {
+            let walked = walk(&mut r, &inst, per_inst);
+            // a reachable node with one of its cancelled courses listed twice (the room stage produces such nodes when a course is in the
+            // k-selection and among the constraints that always apply)
+            if let Some((nd, _)) = walked.iter().rev().find(|(nd, _)| !nd.cancelled.is_empty()) {
+                if r.chance(1, 2) {
+                    let mut nd2 = nd.clone();
+                    let c = *r.pick(&nd2.cancelled);
+                    nd2.cancelled.push(c);
+                    let o = run_impl(&inst, &nd2);
+                    *hist.entry(String::from("nodes_with_repeated_cancel")).or_insert(0) += 1;
+                    cases.push((inst.clone(), nd2, o));
+                }
+            }
+            for (nd, o) in walked {
                 cases.push((inst.clone(), nd, o));
             }
-            if r.chance(1, 3) {
+            if r.chance(2, 3) {
                 let nd = random_node(&mut r, &inst);
                 let o = run_impl(&inst, &nd);
                 *hist.entry(String::from("random_nodes")).or_insert(0) += 1;
